@@ -26,6 +26,8 @@ type decEngine struct {
 	cur   []*FieldSchema
 	calls []decCall
 	entry *State // state at the start of the current case
+	// source ranges of the packed element loops that carry the per-iteration FromWire obligation
+	packedLoops [][2]token.Pos
 }
 
 func (d *decEngine) buf(st *State) (SliceV, bool) {
@@ -142,6 +144,7 @@ func (d *decEngine) loopSpec(c *Ctx, ord int, loop ast.Stmt) *LoopSpec {
 	// packed element loop of a repeated scalar: per-iteration functional obligation
 	if len(d.cur) == 1 && d.cur[0].Rep && !d.cur[0].IsMap {
 		f := d.cur[0]
+		d.packedLoops = append(d.packedLoops, [2]token.Pos{fs.Pos(), fs.End()})
 		ls.EntryObl = func(c *Ctx, pre *State) {
 			if d.entry == nil {
 				return
@@ -248,6 +251,23 @@ func (d *decEngine) onCaseExit(c *Ctx, cc *ast.CaseClause, e, x1 *State) {
 			return
 		}
 		if val, next, ok := d.scalarSpec(x1, f, s); ok {
+			// every append to the field in this case is either the single append of the unpacked form or lies inside the
+			// element loop that carries the per-iteration obligation: no other code path may grow the list
+			for _, ap := range c.listAppends {
+				if ap.Pos < cc.Pos() || ap.Pos > cc.End() || ap.Target != "x."+goName {
+					continue
+				}
+				inLoop := false
+				for _, pl := range d.packedLoops {
+					if ap.Pos >= pl[0] && ap.Pos <= pl[1] {
+						inLoop = true
+					}
+				}
+				if !inLoop {
+					c.addObl(Obl{Name: name("packed-run[elements are appended only by the element loop]"), Kind: "decode", OpaqueSpec: true, Guard: ap.Guard, Goal: wtIs(f.elemWireType()), Pos: c.pos(ap.Pos),
+						Text: "an append to the field outside the packed element loop happens only for the unpacked wire type (one element per record)"})
+				}
+			}
 			add("unpacked-element[appended == FromWire]", implies(wtIs(f.elemWireType()), and("(= "+l1.Len+" (bvadd "+l0.Len+" (_ bv1 64)))", and("(= (select "+l1.Elems+" "+l0.Len+") "+val+")", "(= "+iEnd+" "+next+")"))),
 				"an unpacked occurrence of a repeated scalar appends FromWire(payload) and consumes exactly the record")
 			add("packed-run[consumed]", implies(wtIs(2), "(bvsge "+iEnd+" "+recEnd+")"), "a packed occurrence is accepted and consumes the length-delimited run (its elements are decoded one by one: see packed-element)")
